@@ -858,6 +858,10 @@ def run_case(case, scratch):
   return run_l2(case, scratch)
 
 
+def replay_priority(case):
+  return 0 if (case.get('poison') or case.get('warm')) else 1
+
+
 def shrink(case):
   if case['layer'] == 'L1':
     groups = case['groups']
@@ -910,7 +914,7 @@ def shrink(case):
 def plan(tier):
   if tier == 'quick':
     return {'batches': 48, 'timeout': 1500, 'l1_workloads': 1500, 'l2_workloads': 25, 'wall_budget_s': 240}
-  return {'batches': 480, 'timeout': 1800, 'l1_workloads': 12000, 'l2_workloads': 150, 'wall_budget_s': 1500}
+  return {'batches': 480, 'timeout': 3000, 'l1_workloads': 12000, 'l2_workloads': 150, 'wall_budget_s': 1500}
 
 
 def run_batch(seed, batch, tier, scratch):
